@@ -331,6 +331,18 @@ def table_rule(ctx, rule, repo, fo):
     hs = repo.functions.get("FTag.__hash__")
     ok = eq is not None and hs is not None and "self.value" in unparse(eq) and "str(" in unparse(eq) and "hash(self.value)" in unparse(hs)
     ctx.instance(rule, "FTag[__eq__/__hash__ by value]", ok, "FTag no longer compares/hashes by its string value: wire tags (str) miss the enum-keyed group table", loc(eq or st))
+    # enum plumbing the codec relies on: tag / message-type members are distinct decimal / short strings (a duplicate value silently aliases two members)
+    for cls, pat in (("FTag", r"[0-9]+"), ("FMsg", r"[A-Za-z0-9]{1,2}")):
+        mem = fo.enum_members(cls)
+        vals = list(mem.values())
+        dup = sorted({v for v in vals if vals.count(v) > 1})
+        bad = sorted(k for k, v in mem.items() if not (isinstance(v, str) and re.fullmatch(pat, v)))
+        ctx.instance(rule, f"{cls}[distinct well-formed values]", not dup and not bad and len(mem) > 50,
+                     f"{cls} has duplicate values {dup[:5]} / malformed values for {bad[:5]}: two tags alias or a tag cannot be put on the wire", loc(repo.cls(cls)), evals=len(mem))
+    for name, want in (("BeginString", "8"), ("BodyLength", "9"), ("MsgType", "35"), ("CheckSum", "10"), ("MsgSeqNum", "34"), ("SenderCompID", "49"),
+                       ("TargetCompID", "56"), ("SendingTime", "52"), ("PossDupFlag", "43"), ("OrigSendingTime", "122"), ("GapFillFlag", "123"), ("NewSeqNo", "36")):
+        ctx.instance(rule, f"FTag.{name} == {want}", fo.enum_members("FTag").get(name) == want,
+                     f"FTag.{name} is {fo.enum_members('FTag').get(name)!r}, the FIX tag number is {want}: frames are built / parsed with the wrong framing tag", loc(repo.cls("FTag")))
     ctx.extra["group_table"] = {"rows": len(rows), "nesting_chains": edges}
     if len(rows) < 20:
         raise AnalysisError(f"group table folded to only {len(rows)} rows")
